@@ -407,6 +407,27 @@ void roundTrip(vh::Ctx& c, const Manifold& m, const std::string& how, bool hasTa
   {
     vo::TopoReport t = vo::CheckClosedManifold(g);
     c.count("merge_vector_topology_checks");
+    if (!t.ok) {
+      // Is it the merge vectors, or is the value itself not a closed 2-manifold? Re-check with vertices united by
+      // bit-identical position instead of by the exported merge vectors: if that fails too, the defect is C01's
+      // (a precondition of this property), not a round-trip defect: count the value, do not trip it.
+      MeshGL64 gp = g;
+      gp.mergeFromVert.clear();
+      gp.mergeToVert.clear();
+      std::map<std::array<uint64_t, 3>, uint64_t> firstAt;
+      for (size_t v = 0; v < g.vertProperties.size() / g.numProp; v++) {
+        std::array<uint64_t, 3> k{rawBits(g.vertProperties[v * g.numProp]), rawBits(g.vertProperties[v * g.numProp + 1]), rawBits(g.vertProperties[v * g.numProp + 2])};
+        auto it = firstAt.find(k);
+        if (it == firstAt.end()) firstAt.emplace(k, v);
+        else { gp.mergeFromVert.push_back(v); gp.mergeToVert.push_back(it->second); }
+      }
+      if (!vo::CheckClosedManifold(gp).ok) {
+        c.count("values_skipped_export_not_closed_manifold_C01");
+        c.count("values_tripped", -1);
+        if (c.verbose) fprintf(stderr, "C01 precondition failed for %s: %s %s\n", how.c_str(), t.why.c_str(), t.info.c_str());
+        return;
+      }
+    }
     if (!t.ok) { viol("mergevectors:not-manifold:" + t.why, t.info); clean = false; }
     for (size_t i = 0; i < g.mergeFromVert.size() && i < g.mergeToVert.size(); i++) {
       size_t a = g.mergeFromVert[i], b = g.mergeToVert[i];
